@@ -29,7 +29,7 @@ P = {
          "§5 C04"),
  "C05": ("other",
          "term agreement and must-facts at the fee transfer call; loop-shape analysis; dominance; must-execute fact at the exits of the fee setter",
-         "Decides that the transferX amount is ContainerFee when no name is given and ContainerFee + ContainerAliasFee exactly when a name is given (same predicate as the alias registration), loop-invariant, one call per committee key with no early exit, payer = owner parsed from the blob, details = 0x10||id, registry write dominated by the loop exit, no exception-catching frame around the transfers; every normal return of netmap.SetConfig has stored the submitted value (a fee of 0 included); the debit/credit leg rules of balance's transfer helper are re-run (payer = payee included). Balance-boundary exactness is delegated to C01, hence 'other'.",
+         "Decides that the transferX amount is ContainerFee when no name is given and ContainerFee + ContainerAliasFee exactly when a name is given (same predicate as the alias registration), loop-invariant, one call per committee key with no early exit, payer = owner parsed from the blob, details = 0x10||id, registry write dominated by the loop exit, no exception-catching frame around the transfers; every normal return of netmap.SetConfig has stored the submitted value (a fee of 0 included); the debit/credit leg rules of balance's transfer helper are re-run (payer = payee included). Balance-boundary exactness is delegated to C01, hence 'other'. Round 7: every integer-to-bytes encoder of package deploy returns the output of neo-go's VM integer codec (writer/reader agreement for the settings written at deployment).",
          "§5 C05"),
  "C06": ("other",
          "must-facts at every effect of NewEpoch, write-set exclusion, term checks of published keys/values, loop-shape of the fan-out, membership-loop dominance of the subscription write",
@@ -41,7 +41,7 @@ P = {
          "§5 C07"),
  "C08": ("other",
          "divisor-non-zero rule over storage writers, sibling agreement of retention bounds as canonical linear terms, must-facts at ring index computations",
-         "Explicitly thin. Decides: every writer of the snapshot count stores a value established > 0 (it is a stored divisor of NewEpoch and Snapshot); NewEpoch drops epoch e-N under e > N and the drop loop of UpdateSnapshotCount covers exactly [cur-old+1, cur-new]; Snapshot establishes 0 <= diff < count; UpdateSnapshotCount leaves the ring index < the new count at every exit; listNodes(e) scans the fixed-width prefix NewEpoch writes (one structurally identified fixed-width encoder for writer, reader and dropper); every normal path of UpdateSnapshotCount that shrinks the window runs the drop loop (skip-edge rule). What the ring holds after sequences of resizes and ticks is a relation between run-time integers over time and is NOT decided. Added by the mutation sweep: Snapshot reads slot (current - diff + count) % count and faults only outside 0..count-1; NewEpoch advances the ring by one modulo count. Round 6 (ring-move): a single resize moves and frees exactly the slots of the in-place algorithm (grow: tail behind the current slot shifted up by new-old, downwards; shrink: tail shifted down by old-new, or the last new slots up to the current one moved to the front with current := new-1; freed slots exactly those holding no retained map), compared as canonical linear terms under the branch facts and the integer order axioms.",
+         "Explicitly thin. Decides: every writer of the snapshot count stores a value established > 0 (it is a stored divisor of NewEpoch and Snapshot); NewEpoch drops epoch e-N under e > N and the drop loop of UpdateSnapshotCount covers exactly [cur-old+1, cur-new]; Snapshot establishes 0 <= diff < count; UpdateSnapshotCount leaves the ring index < the new count at every exit; listNodes(e) scans the fixed-width prefix NewEpoch writes (one structurally identified fixed-width encoder for writer, reader and dropper); every normal path of UpdateSnapshotCount that shrinks the window runs the drop loop (skip-edge rule). What the ring holds after sequences of resizes and ticks is a relation between run-time integers over time and is NOT decided. Added by the mutation sweep: Snapshot reads slot (current - diff + count) % count and faults only outside 0..count-1; NewEpoch advances the ring by one modulo count. Round 6 (ring-move): a single resize moves and frees exactly the slots of the in-place algorithm (grow: tail behind the current slot shifted up by new-old, downwards; shrink: tail shifted down by old-new, or the last new slots up to the current one moved to the front with current := new-1; freed slots exactly those holding no retained map), compared as canonical linear terms under the branch facts and the integer order axioms. Round 7: no iteration of a move loop goes round its Put.",
          "§5 C08"),
  "C09": ("other",
          "abstract interpretation + term agreement at the refund call of NewEpoch and the lock record of Lock",
@@ -53,7 +53,7 @@ P = {
          "§5 C10"),
  "C11": ("other",
          "abstract interpretation: gate entailment with subject agreement between the witnessed NameState and the token id keying the changed record",
-         "For addRecord/setRecord/deleteRecords/updateSOA/renew every effect is gated by committee or W(owner(T)) or W(admin(T)) with T exactly the token id keying the written/deleted record; transfer by W(owner); setAdmin by W(owner) and (admin nil or W(admin)); register by W(owner argument) and, above level 2, the admin formula of the name without its first label; checkAdmin's own formula; Transfer stores the record with Admin := nil (a former admin loses its rights). Signer sets over histories are not enumerated, hence 'other'.",
+         "For addRecord/setRecord/deleteRecords/updateSOA/renew every effect is gated by committee or W(owner(T)) or W(admin(T)) with T exactly the token id keying the written/deleted record; transfer by W(owner); setAdmin by W(owner) and (admin nil or W(admin)); register by W(owner argument) and, above level 2, the admin formula of the name without its first label; checkAdmin's own formula; Transfer stores the record with Admin := nil (a former admin loses its rights). Signer sets over histories are not enumerated, hence 'other'. Round 7: the documented gates of the NNS mutators (gate rule shared with C03) are decided here as well.",
          "§5 C11"),
  "C12": ("other",
          "must-facts at record stores, exit facts for the SOA refresh, key-schema analysis of the record family, constant/argument checks of the redirect budget",
@@ -61,7 +61,7 @@ P = {
          "§5 C12"),
  "C13": ("other",
          "AST/type lints specific to deploy/ with positive controls + SSA dominance and taint rules",
-         "Explicitly thin: structural necessary conditions only. Index-space consistency of re-sliced ranges; no map iteration order reaching a witness script; tryDeploy/tryTransfer computed as 'local index == 0' and dominating every deploying/funding submission; committee sorted before the index search; NNS stage first; no import that can persist local progress; encoder/decoder field tables of the shared transaction data and checksum helpers agree; name constants agree across deploy, rpc/nns, common and the contracts; a closure invalidating the shared transaction clears the signature cache validated against it; Transaction.Nonce/ValidUntilBlock depend on a chain height only through the window index (SSA taint); a typed constant a call is made with agrees with the one its error wrap names; a local that starts at a negative sentinel and is branched on is assigned somewhere (copy-paste contradiction rules with embedded positive controls). Added by the deploy mutation sweep: an error is not wrapped, logged or returned on the side where it was just found nil; the 'not found' test of a position-or-sentinel local keeps position 0 with the other positions; a search loop hands out its index on the equal side; no submission is reachable only through the 'still pending' side of the monitor's in-flight query; the shared-data matcher answers true only where every field compared equal; a signature is collected only on the true side of its verification and of the checksum split. Termination/convergence under schedules and crash points, fund and window arithmetic are NOT decided (would need execution or model checking). Round 6: in the signature-collection loop the failure side of a per-member error test always goes on with the next member.",
+         "Explicitly thin: structural necessary conditions only. Index-space consistency of re-sliced ranges; no map iteration order reaching a witness script; tryDeploy/tryTransfer computed as 'local index == 0' and dominating every deploying/funding submission; committee sorted before the index search; NNS stage first; no import that can persist local progress; encoder/decoder field tables of the shared transaction data and checksum helpers agree; name constants agree across deploy, rpc/nns, common and the contracts; a closure invalidating the shared transaction clears the signature cache validated against it; Transaction.Nonce/ValidUntilBlock depend on a chain height only through the window index (SSA taint); a typed constant a call is made with agrees with the one its error wrap names; a local that starts at a negative sentinel and is branched on is assigned somewhere (copy-paste contradiction rules with embedded positive controls). Added by the deploy mutation sweep: an error is not wrapped, logged or returned on the side where it was just found nil; the 'not found' test of a position-or-sentinel local keeps position 0 with the other positions; a search loop hands out its index on the equal side; no submission is reachable only through the 'still pending' side of the monitor's in-flight query; the shared-data matcher answers true only where every field compared equal; a signature is collected only on the true side of its verification and of the checksum split. Termination/convergence under schedules and crash points, fund and window arithmetic are NOT decided (would need execution or model checking). Round 6: in the signature-collection loop the failure side of a per-member error test always goes on with the next member. Round 7: a share-out helper calling f(index, amount) from two counting loops passes adjacent index ranges.",
          "§5 C13"),
  "C14": ("other",
          "typestate/loop-shape analysis of the counting loop, key-schema analysis of the roster families, must-facts at acceptance and notification",
@@ -73,7 +73,7 @@ P = {
          "§5 C15, §3.7"),
  "C16": ("other",
          "abstract interpretation of every Update and of every _deploy with isUpdate = true: gate entailment, version-bound facts at every effect and exit, write-set inclusion in the migration table with per-entry version guards, move/re-visit rules",
-         "Decides: all 11 Update methods call management.update only under the documented majority (the NeoFS Alphabet designated for the next block for neofs/processing) with (script, manifest, data + Version); every _deploy(update) establishes PrevVersion <= v < Version at every effect and exit for v = last element of data; its write set is within the documented migration table, each step under its version guard and gone round only when the stored version is already at or above the recorded layout-change version (skip-edge rule), no fresh-deploy initialisation reachable; index-keyed in-place rewrites run over the stored count; migrations are whole moves selected by key length and re-visit safe. Read-API preservation for arbitrary prior storages is not decided, hence 'other'. Added by the mutation sweep: every documented migration step above PrevVersion is reachable; migration loops end only on exhaustion. Round 6: Version and PrevVersion are composed from disjoint declared components with equal weights, none left out.",
+         "Decides: all 11 Update methods call management.update only under the documented majority (the NeoFS Alphabet designated for the next block for neofs/processing) with (script, manifest, data + Version); every _deploy(update) establishes PrevVersion <= v < Version at every effect and exit for v = last element of data; its write set is within the documented migration table, each step under its version guard and gone round only when the stored version is already at or above the recorded layout-change version (skip-edge rule), no fresh-deploy initialisation reachable; index-keyed in-place rewrites run over the stored count; migrations are whole moves selected by key length and re-visit safe. Read-API preservation for arbitrary prior storages is not decided, hence 'other'. Added by the mutation sweep: every documented migration step above PrevVersion is reachable; migration loops end only on exhaustion. Round 6: Version and PrevVersion are composed from disjoint declared components with equal weights, none left out. Round 7: the Vote/TryPurgeVotes window agreement (shared with C17) is decided here as well.",
          "§5 C16, App. C"),
  "C17": ("other",
          "must-facts at the vote call and action effects, exit-fact exclusion on the quiet return, operator-normalised boundary agreement of the 20-block window, term check of the refreshed ballot, membership-loop dominance of the voter insertion",
@@ -85,11 +85,11 @@ P = {
          "§5 C18"),
  "C19": ("other",
          "must-facts at notification/transfer sites, canonical arithmetic terms of the shares, loop-shape of per-node transfers",
-         "Decides: Deposit only under caller = GAS and 0 < amount <= 9000*10^8 with receiver in {20-byte data, sender}; Withdraw under W(user), 0 <= amount <= 9000, fee = configured WithdrawFee once to Processing (Notary) / once per stored Alphabet key, results checked, amount*10^8 notified; Cheque pays exactly (self -> user, amount) once, checked, same terms notified, and (without Notary) only at the 2/3+1 threshold of the witnessed Alphabet members after removing the ballot of the same id; candidate fee from the witnessed key's account with the ignore marker; Emit shares floor(g/2) and floor((g - g/2)*7/8/N) over the iterated Inner Ring list; payment callbacks accept only GAS (Alphabet also NEO). The balance identity over histories is not decided, hence 'other'. Added by the mutation sweep: converses for the deposit callback and Withdraw, candidate charged exactly when not stored yet, every accepted payment reported. Round 6: a payment carrying the candidate-fee marker is never refused, whatever its amount.",
+         "Decides: Deposit only under caller = GAS and 0 < amount <= 9000*10^8 with receiver in {20-byte data, sender}; Withdraw under W(user), 0 <= amount <= 9000, fee = configured WithdrawFee once to Processing (Notary) / once per stored Alphabet key, results checked, amount*10^8 notified; Cheque pays exactly (self -> user, amount) once, checked, same terms notified, and (without Notary) only at the 2/3+1 threshold of the witnessed Alphabet members after removing the ballot of the same id; candidate fee from the witnessed key's account with the ignore marker; Emit shares floor(g/2) and floor((g - g/2)*7/8/N) over the iterated Inner Ring list; payment callbacks accept only GAS (Alphabet also NEO). The balance identity over histories is not decided, hence 'other'. Added by the mutation sweep: converses for the deposit callback and Withdraw, candidate charged exactly when not stored yet, every accepted payment reported. Round 6: a payment carrying the candidate-fee marker is never refused, whatever its amount. Round 7: the documented gate of alphabet.Emit (gate rule shared with C03) is decided here as well.",
          "§5 C19"),
  "C20": ("other",
          "storage-layout analysis: component kinds of every Find prefix and Put key (R-prefix rule, family disjointness, put/get key agreement) + must-facts for gates, id length bound and cleanup deltas",
-         "Decides every scan of reputation, audit, container estimations, neofsid and the config maps against the R-prefix rule (four genuine findings are recorded as known findings), family disjointness of constant prefixes, key-term agreement of putters and getters, the id length bound of GetContainerSize, AddKey/RemoveKey acting on every submitted key (loop left only on exhaustion), netmap.SetConfig always storing the submitted value, the gates of putContainerSize and audit.put, the cleanup deltas 3/4 with the putter's key components, and the global cleanup examining every scanned key. Multiset equality of listings is not decided, hence 'other'. Added by the mutation sweep: reputation counter continues from the stored one.",
+         "Decides every scan of reputation, audit, container estimations, neofsid and the config maps against the R-prefix rule (four genuine findings are recorded as known findings), family disjointness of constant prefixes, key-term agreement of putters and getters, the id length bound of GetContainerSize, AddKey/RemoveKey acting on every submitted key (loop left only on exhaustion), netmap.SetConfig always storing the submitted value, the gates of putContainerSize and audit.put, the cleanup deltas 3/4 with the putter's key components, and the global cleanup examining every scanned key. Multiset equality of listings is not decided, hence 'other'. Added by the mutation sweep: reputation counter continues from the stored one. Round 7: list getters and their helpers collect every item of their scan (or skip only what is already in the set being built).",
          "§5 C20"),
 }
 
